@@ -711,6 +711,7 @@ def run(rep, tier):
     first = True
     n_err = n_ts = n_div = n_sh = n_carry = n_dim = n_fresh = n_norm = n_cap = n_ld = 0
     n_aud = [0, 0, 0, 0, 0, 0, 0]
+    n_ck = 0
     for (l, d, w) in cs:
         u = us[l]
         S, _ = r_err.status_functions(u)
@@ -733,7 +734,9 @@ def run(rep, tier):
             na_ = [c01_audit.truncating_update_rule(rep, fn), c01_audit.pending_accumulator_rule(rep, fn),
                    c01_audit.carry_out_rule(rep, fn), c01_audit.shift_range_rule(rep, fn), c01_audit.remainder_hi_rule(rep, fn),
                    c01_audit.capacity_vs_length_rule(rep, fn), c01_audit.tristate_status_rule(rep, fn)]
-            c01_audit.capacity_kept_rule(rep, fn)
+            nck_ = c01_audit.capacity_kept_rule(rep, fn)
+            if first:
+                n_ck += nck_
             if first:
                 n_aud = [a_ + b_ for a_, b_ in zip(n_aud, na_)]
             if first:
@@ -779,6 +782,7 @@ def run(rep, tier):
     rep.floor("binary inverse domain obligations", c01_audit.mod_inv_domain_rule(rep, u0), 2)
     rep.floor("modular power success returns", c01_audit.reduced_exit_rule(rep, u0), 4)
     rep.floor("capacity-vs-length room tests", n_aud[5], 2)
+    rep.floor("bn_init / bn_assign_init destinations classified (caller's object vs own temporary)", n_ck, 60)
     rep.floor("Legendre status uses", n_aud[6], 2)
     rep.floor("Euclid inverses (non-default variants)", c01_audit.no_inverse_exit_rule(rep, u0), 2)
     c03.reduce_rule(rep, u0, "bn_mod_small")
